@@ -121,6 +121,7 @@ theorem hse_pure (e : E) (h : hasSideEffects e = false) : PureVal H e (fun _ => 
   | hcall f args _ _ => simp [hasSideEffects] at h
   | hdot x n _ => simp [hasSideEffects] at h
   | hindex x y _ _ => simp [hasSideEffects] at h
+  | hopt a e _ => simp [hasSideEffects] at h
   | hgroup x ih =>
     simp only [hasSideEffects] at h
     exact pure_group (ih h)
